@@ -1403,3 +1403,8 @@ fn switch_historical_inputs() {
     test(&opcodes_true_or1, true);
     test(&opcodes_true_or2, true);
 }
+
+// Verification hook (add-only, compiled only by `cargo kani`): contract harnesses live in /verif.
+#[cfg(kani)]
+#[path = "/verif/kani/harness/switch.rs"]
+mod verif_kani;
